@@ -1160,6 +1160,10 @@ class QuicConnection:
         :param stream_id: The stream's ID.
         :param error_code: An error code indicating why the stream is being reset.
         """
+        if stream_id in self._streams_finished:
+            # Both directions of the stream are complete and it has been
+            # discarded: there is nothing left to abort.
+            return
         stream = self._get_or_create_stream_for_send(stream_id)
         stream.sender.reset(error_code)
 
